@@ -1,13 +1,16 @@
 package c12
 
 import (
+	"crypto/tls"
 	"encoding/json"
 	"fmt"
 	"io"
 	"net/http"
 	"net/http/httptest"
+	"sort"
 	"strings"
 	"sync"
+	"sync/atomic"
 	"time"
 
 	authenticationv1 "k8s.io/api/authentication/v1"
@@ -42,6 +45,7 @@ type wstub struct {
 	revs []review
 	reqs []proxied
 	bad  string
+	sick int32 // /healthz answers 500
 }
 
 const sharedToken = "tok-shared" // every cluster authenticates it as the same user, so SAR specs are equal across clusters
@@ -77,6 +81,10 @@ func (s *wstub) serve(w http.ResponseWriter, r *http.Request) {
 	body, _ := io.ReadAll(r.Body)
 	switch {
 	case r.URL.Path == "/healthz":
+		if atomic.LoadInt32(&s.sick) != 0 {
+			http.Error(w, "unhealthy", 500)
+			return
+		}
 		io.WriteString(w, "ok")
 	case r.Method == "POST" && strings.HasSuffix(r.URL.Path, "/tokenreviews"):
 		var tr authenticationv1.TokenReview
@@ -174,6 +182,7 @@ type wiredWorld struct {
 	log   []string
 	idn   int
 	lock  sync.Mutex
+	down  map[string]bool // cluster -> its endpoint currently fails the health probes
 }
 
 func hostVariant(g *vkit.Rand, h string) string {
@@ -229,6 +238,10 @@ func normHostW(h string) string {
 
 type wreq struct {
 	Host, Token, Impersonate string
+	// TLS: the request arrives on a TLS connection whose handshake carried the server name SNI (which a client is free
+	// to choose differently from the Host header)
+	TLS bool
+	SNI string
 }
 
 // send issues one request and judges it. sequential = reviews can be attributed to this request.
@@ -249,9 +262,25 @@ func (w *wiredWorld) send(q wreq, sequential bool) {
 	if q.Impersonate != "" {
 		req.Header.Set("Impersonate-User", q.Impersonate)
 	}
+	if q.TLS {
+		req.TLS = &tls.ConnectionState{ServerName: q.SNI, HandshakeComplete: true, Version: tls.VersionTLS13}
+		r.Count("wired_requests_with_tls_state", 1)
+		if q.SNI != "" && w.owner(q.SNI) != owner {
+			r.Count("wired_requests_sni_names_other_cluster_than_host", 1)
+		}
+	}
 	rec := w.gw.Serve(req)
 	r.Count("wired_requests", 1)
 	desc := fmt.Sprintf("GET pods Host=%q token=%q impersonate=%q (host owner %s) -> %d", q.Host, q.Token, q.Impersonate, orNone(owner), rec.Code)
+	if q.TLS {
+		desc = fmt.Sprintf("GET pods Host=%q TLS-SNI=%q token=%q impersonate=%q (host owner %s) -> %d", q.Host, q.SNI, q.Token, q.Impersonate, orNone(owner), rec.Code)
+	}
+	w.lock.Lock()
+	ownerDown := owner != "" && w.down[owner]
+	w.lock.Unlock()
+	if ownerDown {
+		desc += " [cluster " + owner + " has no ready endpoint]"
+	}
 	w.lock.Lock()
 	w.log = append(w.log, desc)
 	if len(w.log) > 60 {
@@ -260,12 +289,16 @@ func (w *wiredWorld) send(q wreq, sequential bool) {
 	wit := map[string]interface{}{"world": w.idx, "last_requests_and_moves": append([]string{}, w.log...)}
 	w.lock.Unlock()
 
+	reviewedAt := map[string]bool{}
 	if sequential {
 		for n, s := range w.stubs {
 			if d := s.reviewCount() - before[n]; d > 0 {
 				r.Count("wired_reviews_observed", d)
+				reviewedAt[n] = true
 				if n != owner {
 					r.Violation("C12/wired/review-sent-to-other-cluster", fmt.Sprintf("%s: %d review(s) were sent to the upstream of cluster %q", desc, d, n), wit)
+				} else if ownerDown {
+					r.Violation("C12/wired/review-sent-to-endpoint-that-is-not-ready", fmt.Sprintf("%s: %d review(s) were sent to the upstream of %q although it is not a ready endpoint", desc, d, n), wit)
 				}
 			}
 		}
@@ -287,7 +320,23 @@ func (w *wiredWorld) send(q wreq, sequential bool) {
 	if gotAt != "" {
 		r.Count("wired_forwarded", 1)
 		if gotAt != owner {
-			r.Violation("C12/wired/forwarded-to-other-cluster", fmt.Sprintf("%s: forwarded to the upstream of %q", desc, gotAt), wit)
+			// the Host header addresses `owner`; whose reviews decided the request that cluster `gotAt` now serves?
+			p := provenanceOf(got.ImpUser)
+			foreign := p != "" && p != gotAt
+			for n := range reviewedAt {
+				if n != gotAt {
+					foreign = true
+				}
+			}
+			if foreign {
+				r.Violation("C12/wired/dispatched-to-other-cluster-than-reviewed", fmt.Sprintf("%s: forwarded to the upstream of %q under identity %q; the reviews for this request went to %v", desc, gotAt, got.ImpUser, keys(reviewedAt)), wit)
+			} else {
+				r.Violation("C12/wired/forwarded-to-other-cluster", fmt.Sprintf("%s: forwarded to the upstream of %q", desc, gotAt), wit)
+			}
+			return
+		}
+		if ownerDown {
+			r.Violation("C12/wired/forwarded-although-own-cluster-cannot-be-asked", fmt.Sprintf("%s: forwarded to %q as %q", desc, gotAt, got.ImpUser), wit)
 			return
 		}
 		if q.Impersonate == "" {
@@ -331,9 +380,10 @@ func (w *wiredWorld) send(q wreq, sequential bool) {
 }
 
 func wired(r *vkit.R) {
-	nw := r.N(0, 60)
+	nw := r.N(8, 60)
+	phases := r.N(4, 8)
 	r.Parallel(nw, 8, func(i int, g *vkit.Rand) {
-		w := &wiredWorld{r: r, idx: i, stubs: map[string]*wstub{}, names: []string{"cla", "clb", "clc"}, alias: map[string]string{}, ever: map[string]map[string]bool{}}
+		w := &wiredWorld{r: r, idx: i, stubs: map[string]*wstub{}, names: []string{"cla", "clb", "clc"}, alias: map[string]string{}, ever: map[string]map[string]bool{}, down: map[string]bool{}}
 		var once sync.Once
 		var an authenticator.Request
 		var az authorizer.Authorizer
@@ -380,9 +430,27 @@ func wired(r *vkit.R) {
 			if g.Chance(0.4) {
 				q.Impersonate = []string{"admin", "root"}[g.Intn(2)]
 			}
+			if g.Chance(0.4) {
+				// the request arrives over TLS; the handshake's server name is the client's choice
+				q.TLS = true
+				switch g.Intn(6) {
+				case 0:
+					q.SNI = normHostW(q.Host)
+				case 1:
+					q.SNI = w.names[g.Intn(3)] // (another) cluster's own name
+				case 2:
+					q.SNI = []string{"x.io", "y.io", "z.io"}[g.Intn(3)] // an alias, of whichever cluster holds it now
+				case 3:
+					q.SNI = "nobody.io"
+				case 4:
+					q.SNI = strings.ToUpper(w.names[g.Intn(3)])
+				case 5:
+					q.SNI = ""
+				}
+			}
 			return q
 		}
-		for phase := 0; phase < 8; phase++ {
+		for phase := 0; phase < phases; phase++ {
 			// sequential part
 			var used []wreq
 			for k := 0; k < 25; k++ {
@@ -420,6 +488,10 @@ func wired(r *vkit.R) {
 			if to == from {
 				to = w.names[(g.Intn(2)+1+indexOf(w.names, from))%3]
 			}
+			// fresh credentials on the alias while it still belongs to `from` (a review for this name is served by `from`)
+			fresh := fmt.Sprintf("tok-fresh-%d-%d", i, phase)
+			w.send(wreq{Host: a, Token: fresh + "-before"}, true)
+			w.send(wreq{Host: a, Token: fresh + "-before", Impersonate: "admin"}, true)
 			setAlias(a, "")
 			if !w.apply(from) {
 				return
@@ -442,6 +514,29 @@ func wired(r *vkit.R) {
 				w.send(wreq{Host: a, Token: t}, true)
 				w.send(wreq{Host: a, Token: t, Impersonate: "admin"}, true)
 			}
+			// the new owner loses its only ready endpoint: requests for its names cannot be reviewed, so they are not
+			// authenticated / denied - not decided by anybody else; after recovery the same credentials are decided by it
+			if !w.setHealth(to, false) {
+				return
+			}
+			w.lock.Lock()
+			w.log = append(w.log, fmt.Sprintf("OUTAGE: the endpoint of %s fails its health probes", to))
+			w.lock.Unlock()
+			r.Count("wired_outages_after_alias_move", 1)
+			outage := []wreq{{Host: a, Token: fresh}, {Host: a, Token: fresh, Impersonate: "admin"}, {Host: to, Token: fresh}, {Host: a, Token: fresh + "-before"}, {Host: a, Token: sharedToken, Impersonate: "root"}}
+			for _, q := range outage {
+				w.send(q, true)
+				r.Count("wired_requests_during_outage", 1)
+			}
+			if !w.setHealth(to, true) {
+				return
+			}
+			w.lock.Lock()
+			w.log = append(w.log, fmt.Sprintf("RECOVERY: the endpoint of %s is ready again", to))
+			w.lock.Unlock()
+			for _, q := range outage {
+				w.send(q, true)
+			}
 		}
 		for _, s := range w.stubs {
 			if s.bad != "" {
@@ -454,8 +549,54 @@ func wired(r *vkit.R) {
 		r.Require(r.Counter("wired_forwarded") > int64(nw*50) && r.Counter("wired_refused") > int64(nw*20), "wired: too few forwarded / refused requests")
 		r.Require(r.Counter("wired_reviews_observed") > int64(nw*20), "wired: too few reviews observed at the stub upstreams")
 		r.Require(r.Counter("wired_impersonation_granted_by_own_cluster") > int64(nw), "wired: impersonation was never granted")
-		r.Require(r.Counter("wired_alias_moves") >= int64(nw*6), "wired: too few alias moves")
+		r.Require(r.Counter("wired_alias_moves") >= int64(nw*phases*3/4), "wired: too few alias moves")
+		r.Require(r.Counter("wired_outages_after_alias_move") >= int64(nw*phases/2) && r.Counter("wired_requests_during_outage") >= int64(nw*phases*2), "wired: too few outages of the new owner after an alias move")
+		r.Require(r.Counter("wired_requests_with_tls_state") >= int64(nw*40) && r.Counter("wired_requests_sni_names_other_cluster_than_host") >= int64(nw*15), "wired: too few requests whose TLS server name differs from the Host header")
 	}
+}
+
+func keys(m map[string]bool) []string {
+	var out []string
+	for k := range m {
+		out = append(out, k)
+	}
+	sort.Strings(out)
+	return out
+}
+
+// setHealth makes the (single) endpoint of cluster c fail / pass its health probes and waits until the gateway has
+// noticed (probe triggered, 20 s watchdog).
+func (w *wiredWorld) setHealth(c string, healthy bool) bool {
+	st := w.stubs[c]
+	if healthy {
+		atomic.StoreInt32(&st.sick, 0)
+	} else {
+		atomic.StoreInt32(&st.sick, 1)
+	}
+	ok := vkit.WaitFor(20*time.Second, func() bool {
+		ci, found := w.gw.Cluster(c)
+		if !found {
+			return false
+		}
+		ep, found := ci.Endpoints.Load(st.srv.URL)
+		if !found {
+			return false
+		}
+		if ep.IsReady() == healthy {
+			return true
+		}
+		ep.TriggerHealthCheck()
+		time.Sleep(time.Millisecond)
+		return false
+	})
+	if !ok {
+		w.r.Inconclusive("wired: the gateway did not notice the scripted health change of a stub endpoint within the 20s watchdog")
+		return false
+	}
+	w.lock.Lock()
+	w.down[c] = !healthy
+	w.lock.Unlock()
+	return true
 }
 
 func indexOf(ss []string, s string) int {
